@@ -16,7 +16,7 @@ SETS = {
     "low/high": ([("low", "high"), ("Low", "High"), ("min", "max"), ("Min", "Max")], OPS),
     "left/right": ([("Left", "Right"), ("left", "right")], []),
     "in/out": ([("In", "Out"), ("in", "out"), ("true", "false")], []),
-    "x/y": ([("X", "Y"), ("x", "y"), ("width", "height"), ("Width", "Height"), ("w", "h")], []),
+    "x/y": ([("X", "Y"), ("x", "y"), ("width", "height"), ("Width", "Height"), ("w", "h"), ("cx", "cy"), ("HORIZONTAL", "VERTICAL")], []),
     "x/y+dims": ([("X", "Y"), ("x", "y"), ("XDIM", "YDIM"), ("XL_EDGE", "YL_EDGE"), ("XH_EDGE", "YH_EDGE"), ("Avoid::XDIM", "Avoid::YDIM")], []),
     "scan fwd/rev": ([("XL_CONN", "XH_CONN"), ("XL_EDGE", "XH_EDGE"), ("YL_CONN", "YH_CONN"), ("YL_EDGE", "YH_EDGE"), ("begin", "rbegin"),
                       ("end", "rend"), ("nvert", "rvert"), ("_Rb_tree_const_iterator", "reverse_iterator"), ("_Rb_tree_iterator", "reverse_iterator")], []),
